@@ -372,6 +372,18 @@ def edit_field(obj, rng, depth=0):
             value.extend(b'\xa5' * grow)
             return '%s.extend(%d bytes)' % (field.name, grow)
         from cryptoparser.common.base import ArrayBase
+        if isinstance(value, ArrayBase) and not len(value) and rng.random() < 0.7:
+            # an empty vector gets content (from the item pool of its class)
+            from simverif.props import c12
+            info = c12.classes().get(core.class_path(type(value)))
+            if info and info['pool']:
+                item = info['pool'][rng.randrange(len(info['pool']))]
+                count = rng.choice((1, 3, 40, 30000)) if isinstance(item, int) else rng.choice((1, 2))
+                try:
+                    value.extend([item] * count)
+                    return '%s.extend(%d pool items)' % (field.name, count)
+                except Exception:  # pylint: disable=broad-except
+                    pass
         if isinstance(value, ArrayBase) and len(value) and rng.random() < 0.6:
             inner = value[rng.randrange(len(value))]
             if attr.has(type(inner)) and not isinstance(inner, enum.Enum):
